@@ -68,6 +68,7 @@ func runRace(ctx *runner.Ctx) {
 	if ctx.Quick() {
 		args = append(args, "-short")
 	}
+	args = append(args, runner.RaceDeadlineArg(ctx))
 	if runner.RepoDir != "/repo" {
 		args = append(args, "-modfile="+os.Getenv("VERIF_WORK")+"/go.mod")
 	}
@@ -90,6 +91,7 @@ func runRace(ctx *runner.Ctx) {
 			end = len(o)
 		}
 		ctx.Violate("data-race", "race detector report in free-running duplex transfers: "+o[i:end], k)
+	case err != nil && runner.RaceDeadlineHit(ctx, "duplex transfers", o):
 	case err != nil && strings.Contains(o, "--- FAIL"):
 		ctx.Violate("wrong-delivery.free-running", "free-running duplex transfers failed: "+tail, k)
 	case err != nil:
